@@ -35,6 +35,13 @@ class Exec(ExprMixin):
         self.try_stack: list = []
         self.axioms: list = []
         self.site_counter = 0
+        # loop ordinals: pre-order (source order) numbering of for/while statements of this function
+        self.loop_ids = {}
+        class _V(ast.NodeVisitor):
+            def visit_For(v, n):
+                self.loop_ids[id(n)] = len(self.loop_ids); v.generic_visit(n)
+            visit_While = visit_For
+        _V().visit(fn.node)
 
     # ------------------------------------------------------------------ obligations and exits
     def oblige(self, name, st: State, goal, kind, note=''):
